@@ -5,15 +5,13 @@
  "bound": "generated test modules through Example.run_inline: C01 value trees depth<=2 (quick)/3 (thorough), width<=3, 6 operations x 4 placements + multi-value snapshots, flags=create; C02 (odd old text, new value) pairs depth<=2/3 incl. two-snapshot bodies, flags=create,fix; oracle = rewritten module compiles and re-runs green with snapshot := identity",
  "input": {
   "prop": "C02",
-  "old": "0-5",
-  "new": "' pad '",
+  "old": "(\n        DC(\n            a='c d',\n            c=Inner(\n                x=1,\n                y='yy',  # c1\n            ),\n        ),\n    )",
+  "new": "(DC(a='c d', c=Inner(x=1, y='yy')), ' pad ')",
   "op": "eq",
-  "shape": "fix_then_create",
-  "placement": "assert",
-  "old2": "('c d', -5, 2.5)",
-  "new2": "(1, -5, 2.5)"
+  "shape": "single",
+  "placement": "loop"
  },
- "detail": "[F1] re-run with snapshot := identity is not green: test_a: AssertionError: \nsource:\ndef test_a():\n    v1 = ' pad '\n    v2 = (1, -5, 2.5)\n    assert v1 == snapshot(0-5)\n    assert v2 == snapshot()\n\nrewritten:\ndef test_a():\n    v1 = ' pad '\n    v2 = (1, -5, 2.5)\n    assert v1 == snapshot(\"pad\")\n    assert v2 == snapshot((1, -5, 2.5))\n"
+ "detail": "[F1] re-run with snapshot := identity is not green: test_a: AssertionError: \nsource:\ndef test_a():\n    for _ in range(3):\n        v = (DC(a='c d', c=Inner(x=1, y='yy')), ' pad ')\n        assert v == snapshot((\n        DC(\n            a='c d',\n            c=Inner(\n                x=1,\n                y='yy',  # c1\n            ),\n        ),\n    ))\n\nrewritten:\ndef test_a():\n    for _ in range(3):\n        v = (DC(a='c d', c=Inner(x=1, y='yy')), ' pad ')\n        assert v == snapshot((\n        DC(\n            a='c d',\n            c=Inner(\n                x=1,\n                y='yy',  # c1\n            ),\n        ), \"pad\"))\n"
 }
 """
 
@@ -65,7 +63,7 @@ def rerun_identity(src):
     finally:
         inline_snapshot.snapshot = real
 
-SRC = "from inline_snapshot import snapshot\n\n\n# ---- case ----\ndef test_a():\n    v1 = ' pad '\n    v2 = (1, -5, 2.5)\n    assert v1 == snapshot(0-5)\n    assert v2 == snapshot()\n"
+SRC = 'from inline_snapshot import snapshot\nfrom dataclasses import dataclass, field\nfrom typing import Optional\n\n\n@dataclass\nclass Inner:\n    x: object\n    y: str = "d"\n\n\n@dataclass\nclass DC:\n    a: object\n    b: list = field(default_factory=list)\n    c: Optional[Inner] = None\n\n\n# ---- case ----\ndef test_a():\n    for _ in range(3):\n        v = (DC(a=\'c d\', c=Inner(x=1, y=\'yy\')), \' pad \')\n        assert v == snapshot((\n        DC(\n            a=\'c d\',\n            c=Inner(\n                x=1,\n                y=\'yy\',  # c1\n            ),\n        ),\n    ))\n'
 FLAGS = 'create,fix'
 after, raised = run_inline({'test_something.py': SRC}, FLAGS, cwd_files={})
 new = after['test_something.py']
